@@ -318,6 +318,8 @@ type c18Case struct {
 	// Siblings: further rules of the same rule set (never satisfied), with the description and salience
 	// each must end up with (the defaults where the JSON omits them)
 	Siblings []c18Sibling `json:"other_rules_of_the_set,omitempty"`
+	// RefMatch: what the reference interpreter says about the condition on the state (nil: no opinion)
+	RefMatch *bool `json:"condition_per_reference_interpreter,omitempty"`
 }
 
 type c18Sibling struct {
@@ -424,6 +426,11 @@ func c18Run(c *c18Case) []string {
 	if err != nil {
 		return append(v, "harness: direct rendering does not build: "+err.Error())
 	}
+	if c.RefMatch != nil && got.Err == "" && got.Match != *c.RefMatch && want.Match == got.Match {
+		// both renderings agree with each other but not with the meaning of the tree: whatever the text went
+		// through on its way into the engine (the listener's decoding of string constants, for one) changed it
+		v = append(v, fmt.Sprintf("the condition of the translated rule is %v, the JSON operator tree denotes %v on these facts (reference interpreter)\n--- produced GRL ---\n%s", got.Match, *c.RefMatch, text))
+	}
 	if got.Match != want.Match || got.Err != want.Err {
 		v = append(v, fmt.Sprintf("the condition of the translated rule is %v (%s), the JSON operator tree denotes %v (%s)\n--- produced GRL ---\n%s--- tree rendered with explicit grouping ---\n%s", got.Match, got.Err, want.Match, want.Err, text, c.Direct))
 	}
@@ -487,7 +494,7 @@ var c18Malformed = []struct {
 }
 
 func TestC18(t *testing.T) {
-	col := stats.New("C18", "a typed expression tree (condition of depth 1-4 over all 15 operators, negation, fact paths of every addressing form, calls, constants incl. hostile strings) and 1-3 actions are generated and converted into the JSON rule format with drawn choices per node: operator objects (chains of one operator flattened into n-ary objects of arity 2-4 = left fold), unary not over operator objects, plain-string operands (raw GRL of an atom), JSON numbers and booleans, obj/const wrappers, call objects, set objects, plain-string actions with/without semicolon; single-rule and rule-set form (the rule among 0-3 other, never satisfied rules that state or omit description and salience on their own); description and salience drawn. Oracle: the translator's output is accepted by the builder with the JSON's name, description and salience; its FetchMatchingRules membership and the facts left by one firing equal those of the same tree rendered by the harness's own printer with explicit grouping and own string quoting, built through the same engine (so evaluator defects cannot leak in), on a generated fact state; 44 fixed malformed inputs (empty, blank, not JSON, unknown operator, arity 0, and/or arity <2, two keys, missing/empty name, missing/null when/then, wrong JSON types, bad salience, bad set/call arity, non-identifier name, truncated JSON ...) must end in an error from the translator or the builder, never a panic or a usable rule. Non-trivial: a lower-precedence operator nested in a higher one, or a string constant that needs escaping. Distinct by the JSON text.",
+	col := stats.New("C18", "a typed expression tree (condition of depth 1-4 over all 15 operators, negation, fact paths of every addressing form, calls, constants incl. hostile strings) and 1-3 actions are generated and converted into the JSON rule format with drawn choices per node: operator objects (chains of one operator flattened into n-ary objects of arity 2-4 = left fold), unary not over operator objects, plain-string operands (raw GRL of an atom), JSON numbers and booleans, obj/const wrappers, call objects, set objects, plain-string actions with/without semicolon; single-rule and rule-set form (the rule among 0-3 other, never satisfied rules that state or omit description and salience on their own); description and salience drawn. Oracle: the translator's output is accepted by the builder with the JSON's name, description and salience; its FetchMatchingRules membership and the facts left by one firing equal those of the same tree rendered by the harness's own printer with explicit grouping and own string quoting, built through the same engine (so evaluator defects cannot leak in), on a generated fact state; where the two agree, the condition's value is also compared with the reference interpreter's; 44 fixed malformed inputs (empty, blank, not JSON, unknown operator, arity 0, and/or arity <2, two keys, missing/empty name, missing/null when/then, wrong JSON types, bad salience, bad set/call arity, non-identifier name, truncated JSON ...) must end in an error from the translator or the builder, never a panic or a usable rule. Non-trivial: a lower-precedence operator nested in a higher one, or a string constant that needs escaping. Distinct by the JSON text.",
 		"plain-string operands are raw GRL by documentation: the generator only puts atoms there",
 		"arity 1 is only used for unary not over an operator object (the one unary form the repository defines)")
 	defer col.Flush()
@@ -595,9 +602,14 @@ func TestC18(t *testing.T) {
 		}
 		c := &c18Case{JSON: string(jb), Direct: gast.RuleString(r) + "\n", Name: name, Desc: desc, Sal: sal, State: st, Siblings: siblings}
 		// the reference must be able to give the tree a meaning; otherwise the case is outside the domain
-		if _, rerr := ref.New(st.Copy()).Eval(cond); rerr != nil {
+		rv, rerr := ref.New(st.Copy()).Eval(cond)
+		if rerr != nil {
 			col.Case(c.JSON, false, "excluded_condition_not_evaluable")
 			return
+		}
+		if rv.K == ref.KBool {
+			b := rv.B
+			c.RefMatch = &b
 		}
 		v := c18Run(c)
 		nt := conv.hasNested || conv.hasEscape
